@@ -113,6 +113,12 @@ impl TG<'_> {
                 if n == 0 && lv.map(|x| x.n == 0).unwrap_or(true) { (format!("({l})^2"), lv.and_then(|a| rmul(a, a)).filter(|x| small(*x))) } else { (format!("({l})^{n}"), v) }
             }
             _ => match lv {
+                // a power of an even power with a non-integer exponent: the outer base is 1 also where the inner base is -1
+                Some(c) if c.d == 1 && (c.n == 1 || c.n == -1) && self.rng.random_bool(0.5) => {
+                    let m = *[2, 4].choose(self.rng).unwrap();
+                    let e = *["0.5", "1.5", "2.5", "0.75"].choose(self.rng).unwrap();
+                    (format!("(({l})^{m})^{e}"), Some(Rat::int(1)))
+                }
                 // general power: the base is moved to 1
                 Some(c) => {
                     let s = rsub(Rat::int(1), c).filter(|s| small(*s));
@@ -425,7 +431,13 @@ fn advnames(rng: &mut StdRng) -> Value {
             add(u, false, true, 0, false);
         }
     }
-    let table = Value::Array(tab.iter().map(|o| json!({"name": cps(o.name), "bin": o.bin, "un": o.un, "const": false, "prio": o.prio,
+    // a constant, and the table in random order: constants and unary-only operators may stand in front of binary ones
+    // (the shipped tables list binary operators first and constants last; positions in the table are operator identities)
+    if rng.random_bool(0.6) {
+        tab.push(OpDesc { name: intern("Kc"), bin: false, un: false, constant: true, prio: 0, comm: false });
+    }
+    tab.shuffle(rng);
+    let table = Value::Array(tab.iter().map(|o| json!({"name": cps(o.name), "bin": o.bin, "un": o.un, "const": o.constant, "prio": o.prio,
         "comm": o.comm, "sem": if o.bin { sem_of(o.name, true) } else { "" }, "usem": if o.un { sem_of(o.name, false) } else { "" }})).collect());
     let mut seeds = vec![];
     for _ in 0..rng.random_range(2..=4) {
